@@ -19,7 +19,7 @@ RULE = ('each run = (o) 7 members of the enumeration of all (base sentence x non
 ASSUMPTIONS = ['R1 value tables (sim/ref/refsem.py); literals = sentence or its negation, with designation marker, at one world']
 
 def plan(tier):
-    return dict(runs=1600 if tier == 'quick' else 40000, timeout=300 if tier == "quick" else 5400)
+    return dict(runs=1600 if tier == 'quick' else 40000, timeout=900 if tier == "quick" else 10800)
 
 def key_of(spec, clause):
     sem = refsem.get(spec['logic'])
